@@ -37,6 +37,9 @@ def canon_of(laid):
 def norm_leaf(tok):
     if tok.is_keyword or tok.ttype is T.Operator.Comparison or (tok.ttype is not None and tok.ttype in T.Name.Builtin):
         return ' '.join(tok.value.upper().split())
+    if tok.ttype is not None and tok.ttype in T.Name and tok.value.upper() in G.ALL_WORDS:
+        # a keyword written directly before '(' is a name for the lexer (documented rule); generated identifiers are never dictionary words
+        return tok.value.upper()
     return tok.value
 
 
